@@ -54,7 +54,7 @@ func (m *MethodEvaluator) isNotArgT(
 		return true
 	}
 
-	if t.IsTargetIdentifier("[") && methodT.IsEmptyDefineArgs() {
+	if t.IsTargetIdentifier("[") && methodT.IsEmptyDefineArgs() && !m.isParentheses {
 		m.parser.Unget()
 		return true
 	}
